@@ -53,6 +53,22 @@ class TimeShim:
     def monotonic(self):
         return self.loop.now
 
+    def perf_counter(self):
+        return self.loop.now
+
+    def time_ns(self):
+        return int(self.time() * 1e9)
+
+    def monotonic_ns(self):
+        return int(self.loop.now * 1e9)
+
+    def __getattr__(self, name):
+        import time as _t
+        v = getattr(_t, name)
+        if name in ("sleep", "process_time", "thread_time", "clock_gettime", "clock_gettime_ns", "perf_counter_ns", "localtime", "gmtime", "ctime", "asctime"):
+            raise RuntimeError("library code uses time.%s, which the simulation does not provide" % name)
+        return v
+
 
 class Sim:
     current = None
@@ -125,6 +141,21 @@ class Sim:
         self._patch(tm, "random", self.draws["tm"])
         self.timeshim = TimeShim(self.loop, self.wall_offset)  # .offset += d is a step of the wall clock (NTP, operator)
         self._patch(proto, "time", self.timeshim)
+        # ... and whichever other module of the library reads a clock through the `time` module: there is one
+        # simulated wall clock (steppable) and one monotonic clock (the loop's), no real one
+        import time as _real_time
+        import importlib
+        for name in ("aiocoap.resource", "aiocoap.blockwise", "aiocoap.pipe", "aiocoap.interfaces", "aiocoap.transports.tcp",
+                     "aiocoap.transports.rfc8323common", "aiocoap.util.asyncio.timeoutdict", "aiocoap.cli.rd",
+                     "aiocoap.cli.fileserver", "aiocoap.proxy.server", "aiocoap.proxy.client"):
+            try:
+                importlib.import_module(name)  # (so that it is there to be patched whatever the check imports later)
+            except Exception:
+                pass
+        for name, mod in sorted(sys.modules.items()):
+            if mod is not None and (name == "aiocoap" or name.startswith("aiocoap.")) and mod is not proto \
+                    and mod.__dict__.get("time") is _real_time:
+                self._patch(mod, "time", self.timeshim)
         # logging: capture WARNING and above as (level, template); never format
         self._handler = ListHandler(self)
         root = logging.getLogger()
